@@ -59,7 +59,7 @@ def check1d(case):
     cases.build_mesh(dict(kind="refined", n=md["n"] + 2, length=0.5 * md["length"], ratio=3.0, a=1, b=2))
     n = md["n"]
     kind = md["kind"]
-    xf = np.asarray(m.xf, dtype=float)
+    xf = np.array(m.xf, dtype=float, copy=True)          # copies: the mesh is read again after every query has been used
     labels = ["kind:" + kind, "n:" + ("1" if n == 1 else "2-9" if n < 10 else "10-99" if n < 100 else ">=100")]
     require(m.ncell == n, "ncell", "mesh.ncell = %r, requested %r" % (m.ncell, n))
     require(xf.shape == (n + 1,), "nfaces", "%d faces for ncell = %d" % (xf.size, n))
@@ -80,13 +80,13 @@ def check1d(case):
     require(abs(xf[0] - lo) <= 4 * EPS * scale, "first-face", "first face %r, expected %r" % (float(xf[0]), lo))
     require(abs(xf[-1] - hi) <= 4 * EPS * scale, "last-face", "last face %r, expected %r" % (float(xf[-1]), hi))
     # centres
-    xc = np.asarray(m.centers(), dtype=float)
+    xc = np.array(m.centers(), dtype=float, copy=True)
     require(xc.shape == (n,), "ncenters", "centers() has shape %r" % (xc.shape,))
     mid = 0.5 * (xf[:-1] + xf[1:])
     require(np.max(np.abs(xc - mid)) <= 4 * EPS * max(abs(lo), abs(hi)), "midpoints", "centres are not face midpoints (max dev %r)" % float(np.max(np.abs(xc - mid))))
     require(np.array_equal(np.asarray(m.xc), xc), "xc-attr", "mesh.xc differs from centers()")
     # volumes
-    vol = np.asarray(m.vol(), dtype=float)
+    vol = np.array(m.vol(), dtype=float, copy=True)
     dxf = xf[1:] - xf[:-1]
     require(vol.shape == (n,), "nvol", "vol() has shape %r for %d cells" % (vol.shape, n))
     require(np.all(vol > 0), "vol-positive", "non-positive volume")
@@ -108,6 +108,11 @@ def check1d(case):
     l2 = m.L2average(d)
     require(abs(l1 - float(np.sum(dxf * np.abs(d)) / np.sum(dxf))) <= 1e-13 * np.max(np.abs(d)) + 1e-300, "L1average", "L1 average is not volume weighted")
     require(abs(l2 - float(np.sqrt(np.sum(dxf * d * d) / np.sum(dxf)))) <= 1e-13 * np.max(np.abs(d)) + 1e-300, "L2average", "L2 average is not volume weighted")
+    # the queries are read-only: after averages (and a first round of every accessor) the mesh still answers the same, bit for bit
+    for nm, before, now in (("xf", xf, m.xf), ("centers()", xc, m.centers()), ("xc", xc, m.xc), ("vol()", vol, m.vol()), ("dx()", vol, m.dx())):
+        require(np.array_equal(np.asarray(now, dtype=float), before), "queries-read-only", "mesh.%s changed after average()/L1average()/L2average() were called (max change %r)"
+                % (nm, float(np.max(np.abs(np.asarray(now, dtype=float) - before)))))
+    require(m.ncell == n and m.nbfaces() == n + 1, "queries-read-only", "ncell / nbfaces() changed after the averages were called")
     nontrivial = n >= 2 and kind != "uni"
     if kind == "uni":
         exp = x0 + L * np.arange(n + 1) / n
@@ -152,13 +157,13 @@ def check2d(case):
     require(m.ncell == nx * ny, "ncell", "ncell = %r" % m.ncell)
     nxf, nyf = (nx + 1) * ny, nx * (ny + 1)
     require(m.nbfaces() == nxf + nyf, "nbfaces", "nbfaces() = %r, expected %d" % (m.nbfaces(), nxf + nyf))
-    vol = np.asarray(m.vol(), dtype=float)
+    vol = np.array(m.vol(), dtype=float, copy=True)
     require(vol.shape == (nx * ny,), "nvol", "vol() shape %r" % (vol.shape,))
     require(np.max(np.abs(vol - dx * dy)) <= 4 * EPS * dx * dy, "vol", "cell volume %r, expected %r" % (float(vol[0]), dx * dy))
     require(abs(float(m.dx()) - dx) <= 2 * EPS * dx and abs(float(m.dy()) - dy) <= 2 * EPS * dy, "dxdy", "dx()/dy() = %r/%r" % (m.dx(), m.dy()))
     c = case["const"]
     require(abs(m.average(np.full(nx * ny, c)) - c) <= 8 * EPS * abs(c), "average-const", "average of a constant is not the constant")
-    xx, yy = m.centers()
+    xx, yy = [np.array(a, dtype=float, copy=True) for a in m.centers()]
     ii = np.arange(nx * ny) % nx
     jj = np.arange(nx * ny) // nx
     require(np.asarray(xx).shape == (nx * ny,) and np.asarray(yy).shape == (nx * ny,), "centers-shape", "centers() shapes %r %r" % (np.shape(xx), np.shape(yy)))
@@ -198,6 +203,12 @@ def check2d(case):
         require(np.all(nrm[0] == outward[t][0]) and np.all(nrm[1] == outward[t][1]), "normal", "normal_of_bc(%s) is %r, outward unit normal is %r" % (t, nrm[:, 0].tolist(), outward[t]))
     require(len(set(allidx)) == len(allidx), "disjoint", "boundary face sets overlap")
     require(len(allidx) == 2 * nx + 2 * ny, "cover", "%d boundary faces indexed, %d expected" % (len(allidx), 2 * nx + 2 * ny))
+    # read-only queries: second reading after everything has been used once
+    x2, y2 = m.centers()
+    require(np.array_equal(np.asarray(m.vol(), dtype=float), vol) and np.array_equal(np.asarray(x2, dtype=float), xx) and np.array_equal(np.asarray(y2, dtype=float), yy),
+            "queries-read-only", "vol() / centers() changed after the mesh was queried")
+    for t in tags:
+        require(np.asarray(m.index_of_bc(t)).tolist() == geo[t], "queries-read-only", "index_of_bc(%s) changed at the second call" % t)
     labels = ["nx=ny" if nx == ny else "nx!=ny", "min-dim:%d" % min(nx, ny, 3)]
     return dict(nontrivial=(nx != ny or lx != ly), labels=labels)
 
